@@ -39,7 +39,8 @@ def _universe(cfg):
     peptide_map, shared, protein_map, ident = {}, {}, {}, []
     k = 0
     for gi in range(pairs):
-        members = ["P%d" % gi] if gi % 2 == 0 else ["P%d" % gi, "Q%d" % gi]
+        stem = "xdecoy_" if cfg.get("names") == "prefix inside" else ""  # a TARGET whose name contains the decoy prefix, not at its start
+        members = [stem + "P%d" % gi] if gi % 2 == 0 else [stem + "P%d" % gi, stem + "Q%d" % gi]
         tg = ", ".join(members)
         dg = ", ".join(PREFIX + m for m in members)
         for m in members:
@@ -268,7 +269,11 @@ def harnesses(tier):
             add("picked[n=3,pairs=1,notation+%d]" % off, dict(n=3, pairs=1, notation_offset=off))
         add("picked[n=3,pairs=2]", dict(n=3, pairs=2, notation_offset=1))
         add("picked[n=2,pairs=1,unknown peptides]", dict(n=2, pairs=1, notation_offset=0, unknown=True))
+        add("picked[n=2,pairs=1,target names containing the decoy prefix]", dict(n=2, pairs=1, notation_offset=0, names="prefix inside"))
+        add("picked[n=3,pairs=2,target names containing the decoy prefix]", dict(n=3, pairs=2, notation_offset=2, names="prefix inside"))
     else:
+        add("picked[n=3,pairs=2,target names containing the decoy prefix]", dict(n=3, pairs=2, notation_offset=1, names="prefix inside"))
+        add("picked[n=4,pairs=1,target names containing the decoy prefix]", dict(n=4, pairs=1, notation_offset=3, names="prefix inside"))
         for off in range(len(NOTATIONS)):
             add("picked[n=4,pairs=1,notation+%d]" % off, dict(n=4, pairs=1, notation_offset=off))
             add("picked[n=3,pairs=2,notation+%d]" % off, dict(n=3, pairs=2, notation_offset=off))
